@@ -104,12 +104,14 @@ type VC struct {
 	noSafe   int // >0: suppress SAFE emission (spec evaluation)
 	enabled  map[string]bool
 	known    map[string]bool
+	lits     map[string]bool                // string literals seen (closed terms)
+	litFuncs map[string]func(string) string // uninterpreted string functions evaluable on literals
 	seenObl  map[string]bool
 }
 
 func newVC(eng *Engine, name string, classes map[string]bool) *VC {
 	vc := &VC{eng: eng, name: name, declared: map[string]bool{}, comps: map[string]*Sort{}, entry: map[string]Term{},
-		classes: classes, oblCount: map[string]int{}, fset: eng.fset, usedExt: map[string]bool{}, usedSpec: map[string]bool{}, inlined: map[string]bool{}, known: map[string]bool{}, seenObl: map[string]bool{}}
+		classes: classes, oblCount: map[string]int{}, fset: eng.fset, usedExt: map[string]bool{}, usedSpec: map[string]bool{}, inlined: map[string]bool{}, known: map[string]bool{}, seenObl: map[string]bool{}, lits: map[string]bool{}, litFuncs: map[string]func(string) string{}}
 	vc.A0 = vc.fresh("A0", SInt)
 	vc.fact(Ge(vc.A0, One))
 	return vc
@@ -596,4 +598,41 @@ func valEq(a, b Val) Term {
 func (vc *VC) mineOrNil(st *State, e Term) Term {
 	vc.registerComp("Mine", SArr(SInt, SBool))
 	return Or(Eq(e, Zero), Select(vc.get(st, "Mine"), e))
+}
+
+// prelude: closed-term axioms. Pure string functions of the standard library
+// are evaluated with the real implementation on every string literal that
+// occurs in the VC (uf(lit) == value).
+func (vc *VC) prelude() []string {
+	var out []string
+	var names []string
+	for n := range vc.litFuncs {
+		names = append(names, n)
+	}
+	sort.Strings(names)
+	var lits []string
+	for l := range vc.lits {
+		lits = append(lits, l)
+	}
+	sort.Strings(lits)
+	for _, n := range names {
+		fn := vc.litFuncs[n]
+		// values are literals too (ToUpper(ToUpper(x)))
+		seen := map[string]bool{}
+		work := append([]string(nil), lits...)
+		for len(work) > 0 {
+			l := work[0]
+			work = work[1:]
+			if seen[l] {
+				continue
+			}
+			seen[l] = true
+			v := fn(l)
+			out = append(out, fmt.Sprintf("(assert (= (%s %s) %s))", sym(n), StrT(l).S, StrT(v).S))
+			if !seen[v] {
+				work = append(work, v)
+			}
+		}
+	}
+	return out
 }
